@@ -26,7 +26,9 @@ CLAIMS = {
              "the queue are a subsequence of the order in which tasks started waiting (C09_fifo_history), every "
              "start of waiting is accounted for exactly once as served / cancelled / still queued "
              "(C09_fifo_accounting), and without cancellations served ++ queued = started-waiting "
-             "(C09_fifo_exact); the logs are read off what a step did (handedTo sound and complete).",
+             "(C09_fifo_exact); the logs are read off what a step did (handedTo sound and complete); the model driver "
+             "carries them and every trace compares them with the same lists derived from the real Lock's public "
+             "statistics().",
         design="5/C09",
         note=BASE_NOTE + "Modelled, not verified: asyncio.Future/Task cancellation mechanics "
              "(events fc/mc are observed on the real tasks).",
@@ -130,7 +132,8 @@ CLAIMS["C10"] = dict(
          "queued, statistics equal the ghost counts, one token per borrower, quiescence. Semaphore FIFO at history "
          "level (Props/C10fifo.lean, 6 theorems, same construction as C09fifo): for every event list the hand-overs "
          "followed by the queue are a subsequence of the waiting order, every start of waiting is accounted for "
-         "exactly once (served / cancelled / still queued), exact equality without cancellations. Tied to the code by "
+         "exactly once (served / cancelled / still queued), exact equality without cancellations; the sem driver carries "
+         "these logs and every semaphore trace compares them with lists derived from the real object. Tied to the code by "
          "replaying every loop handle of generated programs in the models, plus a history oracle.",
     design="5/C10",
     note=BASE_NOTE + "Limiter theorems are conditional on two decidable history predicates "
